@@ -12,6 +12,7 @@ from vf import instrument as I
 from vf.gen import rng_for, daily_index
 
 ID = "C09"
+TECHNIQUE = "runtime monitoring: reference-model monitor (independent local-day mean and reading counts) compared with the real data classes' temperature and sufficiency columns per local day, DST days and coverage thresholds included"
 LEVEL = "exploration"
 NEEDS_NUMBA = False
 CASE_TIMEOUT = 1800
